@@ -3,23 +3,38 @@ OPT = ['--ptrdiff', '--flat-unions']
 # P: fast encoding (see props/C08/spec.py): -fno-inline + std::string::_M_create cut to a reported bound failure (all strings <= 15
 # bytes) + deterministic pool allocator. X: exact encoding (CBMC malloc, inlined libstdc++), strings up to 63 bytes.
 SSO = dict(wrap='wrap.cc', cxxflags=['-fno-inline'], cuts=['basic_stringIcSt11char_traitsIcESaIcEE9_M_createERmm$'], extra_c=['sso_bound.c'], ir2c_flags=OPT)
-UNITS = {'P': dict(SSO, new_block=64, gen_defs=['VERIF_NEW_POOL=8']), 'X': dict(wrap='wrap.cc', new_block=64, ir2c_flags=OPT),
+# P additionally uses --thread-br (engine/ir2c.py thread_target): clang routes parse_data_string's `return data` from inside the loop through the
+# loop latch with a phi'd flag; CBMC merges there and the cursor `in` becomes symbolic, so nothing folds after the first symbolic character
+# (measured: '"' + 1 symbolic byte 115k steps / 60 s -> 10k steps / 2 s). Pure jump threading on the emitted C, validated by translation validation.
+UNITS = {'P': dict(SSO, new_block=64, gen_defs=['VERIF_NEW_POOL=8'], ir2c_flags=OPT + ['--thread-br']), 'X': dict(wrap='wrap.cc', new_block=64, ir2c_flags=OPT),
          # XP: exact libstdc++ strings (heap storage allowed, blocks of 64 bytes) + deterministic pool allocator; NP: the same without inlining
          # (phosg::format_color_escape is variadic: cut, exact model in h_hexdump.c for the generated-C modes)
          'XP': dict(wrap='wrap.cc', new_block=64, ir2c_flags=OPT, gen_defs=['VERIF_NEW_POOL=16'], cuts=['^_ZN5phosg19format_color_escapeB5cxx11ENS_14TerminalFormatEz$']),
          'NP': dict(wrap='wrap.cc', new_block=64, ir2c_flags=OPT, gen_defs=['VERIF_NEW_POOL=16'], cxxflags=['-fno-inline'], extra_c=['alloc_noop.c'])}
 BOUNDS = ('format_data_string: data 0..2 bytes with symbolic mask / has_mask / flag, 2..5 bytes with has_mask and flag case-split (quick 0..2); '
-          'parse_data_string: arbitrary text of 0..1 bytes quick, 0..3 thorough (all 256 values, mask requested or not, flags 0); round trip format->parse through the real parser: data 0..1 (0..2 thorough) bytes; '
-          'format_data: concrete (size, start address, flags, iovec cuts) cells with symbolic data bytes: sizes 0..20, start addresses 0, unaligned, up to/across 2^32, 0x1234... (64-bit), and up to 2^64, '
-          'flags PRINT_ASCII / none / SKIP_SEPARATOR / COLLAPSE_ZERO_LINES / OFFSET_16/64_BITS, all 10 cut pairs for size 3, selected pairs otherwise')
+          'parse_data_string (text in an exact-size heap object: a read past the terminating NUL fails CBMC\'s pointer checks / ASan): arbitrary text of 0..1 bytes quick, 0..3 thorough (all 256 values, mask requested or not, flags 0), '
+          'plus cells = one concrete construct opener of 1..5 characters (" \' "\\ \'\\ $\' ?" // /*a 4" #1 ##1 ###1 ####1 $##1 ?#1 %1 %%1 $%1 4b 4?b /*/4b <4b and texts ending in a backslash) followed by 0..1 symbolic bytes (0..2 thorough); '
+          'in the numeric cells the conversion stub consumes a cell-fixed number of characters (0 or 1) and returns an arbitrary value; '
+          'round trip format->parse through the real parser: data 0 bytes quick, 0..2 bytes thorough (symbolic has_mask / flags); '
+          'format_data: concrete (size, start address, flags, iovec cuts) cells with symbolic data bytes: sizes 0..20 (quick 0..2), start addresses 0, unaligned, up to/across 2^32, 0x1234... (64-bit), and up to 2^64, '
+          'flags PRINT_ASCII / none / SKIP_SEPARATOR / COLLAPSE_ZERO_LINES / OFFSET_16/64_BITS, all 10 cut pairs for size 3, selected pairs otherwise; '
+          'diff / colour mode (USE_COLOR, previous buffer of symbolic bytes as two iovecs): sizes 1..3 quick (1..4 thorough), start addresses with low nibble 0 / 3 / 5 / 14 / 15 incl. 0xFFFFFFFF, with and without PRINT_ASCII / SKIP_SEPARATOR, '
+          'colour without previous buffer, previous buffer without colour')
 STUBS = ['vasprintf: engine/rt/stub_printf.h, EXACT for %02X, %0*lX and literals (hex digits nibble-wise)',
-         'strtoull / strtod / strtof (h_dsparse.c): CONTRACT stubs - consume 0..strlen characters, return an arbitrary value (0 when nothing consumed, floats non-NaN); the reference parser uses the same values',
-         'P unit: std::string::_M_create cut to a reported bound failure (strings <= 15 bytes), pool allocator, std::allocator<char> no-ops; XP unit: pool allocator only (heap strings up to 63 bytes)',
+         'strtoull / strtod / strtof (h_dsparse.c): CONTRACT stubs - consume 0..strlen characters (cells with USED: exactly min(USED, strlen)), return an arbitrary value (0 when nothing consumed, floats non-NaN); the reference parser uses the same values',
+         'phosg::format_color_escape (variadic; clang lowers va_arg to register-save-area arithmetic CBMC cannot interpret): cut in unit XP and replaced in the generated-C modes by an exact model in h_hexdump.c '
+         '("\\033[" + decimal attributes 0..99 joined by ";" + "m", 1..4 attributes, anything else a reported BOUND failure); the native real build runs the real function and translation validation compares the texts',
+         'w_parse_ds_inplace (wrap.cc): the parser is handed a std::string object whose representation {pointer, length, capacity} points at the harness\'s exact-size buffer (libstdc++ layout, no copy), so that the walk over c_str() is bounds-checked',
+         'w_format_data_diff_ev (wrap.cc, EV cells): the sink passed to format_data records every write_data call that starts with ESC as an out-of-band event {text position, length, first 8 bytes} instead of appending it to the text; '
+         'the harness decodes the event bytes; the inline_* cells (thorough) keep the sequences in the text and remove them in the harness',
+         'P unit: std::string::_M_create cut to a reported bound failure (strings <= 15 bytes), pool allocator, std::allocator<char> no-ops, ir2c --thread-br (jump threading of the emitted C, see UNITS); XP unit: pool allocator only (heap strings up to 63 bytes)',
          'load_file (ALLOW_FILES) is never reached (flags == 0); Filesystem.cc is included only to link the native build']
 OUTSIDE = ['data longer than the cells (statement: 0..600 bytes); round trip parse(format(d)) beyond 2 bytes (2 bytes: 713 s; 3 bytes with mask exceed the 15-byte string bound of the P encoding); longer data is covered '
            'compositionally: format output decoded by an independent decoder (h_dsformat.c) + parser == reference parser on arbitrary text (h_dsparse.c)',
+           'parse_data_string on arbitrary text longer than 3 bytes; in the prefix cells a symbolic byte examined in the default state keeps every construct branch alive (60-250 s per such byte), so the quick cells place the symbolic byte inside a string / comment or fix the number of characters a numeric conversion consumes',
            'format_data with SYMBOLIC size / start address / iovec lengths: every loop bound derives from start + sum(iov_len), CBMC cannot fold it (no verdict in 300 s even for size 0); addresses and partitions are therefore cells, not quantified',
-           'PRINT_FLOAT / PRINT_DOUBLE columns (%g formatting), USE_COLOR / diff against a previous buffer (decimal to_string in the escape sequence and data-dependent text positions), print_data (FILE*, isatty), ALLOW_FILES',
+           'diff / colour mode beyond 4 bytes, together with COLLAPSE_ZERO_LINES (needs >= 33 bytes), with PRINT_FLOAT / PRINT_DOUBLE; the exact escape text is not prescribed (any SGR sequence built from 0 / 1 / 7 / 31 is accepted) and the attribute of the blank in front of a hex pair is not constrained',
+           'PRINT_FLOAT / PRINT_DOUBLE columns (%g formatting), print_data (FILE*, isatty), ALLOW_FILES',
            'parse_data_string: the numeric value syntax itself (strtoull/strtod/strtof are contract stubs)',
            'undocumented parser quirks the reference follows (see NOTES.md): "/*/" is a complete comment; a pending high nibble survives other constructs; bytes >= 0x80 inside \'...\' strings are sign-extended to 16 bits']
 ASSUMPTIONS = []
@@ -46,45 +61,48 @@ def queries(tier):
     quick = tier == 'quick'
     qs = []
     for L in ([0, 1] if quick else [0, 1, 2]):
-        qs.append(Q('dsformat_len%d' % L, 'P', 'h_dsformat.c', {'LEN': L}, 5 * L + 4, unwindset=PRINTF_LOOPS, mem_gb=10,
+        qs.append(Q('dsformat_len%d' % L, 'P', 'h_dsformat.c', {'LEN': L}, 5 * L + 4, unwindset=PRINTF_LOOPS, mem_gb=4 if L <= 1 else 10,
                     desc='format_data_string of %d symbolic bytes + mask decodes back (independent decoder of the data-string syntax)' % L,
                     bounds='len(data) == %d, all byte values, all masks, with/without mask, both flag values' % L))
     # larger cells: has_mask / flags case-split; (L=3, mask, strings allowed) exceeds the 15-byte string bound of the P encoding (17 chars)
     for L, hm, fl in ([(2, 0, 0), (2, 0, 1), (2, 1, 1)] if quick else [(2, 1, 0), (3, 0, 0), (3, 0, 1), (3, 1, 1), (4, 0, 1), (5, 0, 1), (4, 0, 0)]):
-        qs.append(Q('dsformat_len%d_m%d_f%d' % (L, hm, fl), 'P', 'h_dsformat.c', {'LEN': L, 'HM': hm, 'FL': fl}, 5 * L + 4, unwindset=PRINTF_LOOPS, mem_gb=10,
+        qs.append(Q('dsformat_len%d_m%d_f%d' % (L, hm, fl), 'P', 'h_dsformat.c', {'LEN': L, 'HM': hm, 'FL': fl}, 5 * L + 4, unwindset=PRINTF_LOOPS, mem_gb=6 if L <= 2 else 10,
                     desc='as dsformat, has_mask=%d flags=%d fixed' % (hm, fl), bounds='len(data) == %d, all byte values, all masks' % L))
     PLOOP = '_ZN5phosg17parse_data_stringERKNSt7__cxx1112basic_stringIcSt11char_traitsIcESaIcEEEPS5_m.0:%d'
-    for L in ([0] if quick else [0, 1, 2, 3]):
+    for L in ([0, 1] if quick else [0, 1, 2, 3]):
         qs.append(Q('dsparse_len%d' % L, 'P', 'h_dsparse.c', {'LEN': L}, 10 if L <= 2 else 14, unwindset=PLOOP % (L + 2), mem_gb=12, timeout=1800,
                     desc='parse_data_string on %d arbitrary symbolic bytes equals the reference data-string parser (data and mask), strtoull/strtod/strtof contract stubs' % L,
                     bounds='len(text) == %d, all byte values, mask requested or not, flags == 0' % L))
-    # concrete construct openers followed by symbolic bytes (the parser's branches on the concrete prefix fold: seconds per cell)
-    PFX = [('dq', '"', 2), ('sq', "'", 2), ('dq_bs', '"\\', 1), ('sq_bs', "'\\", 1), ('be_sq', "$'", 1), ('hash', '#', 1), ('hash2', '##', 1), ('hash3', '###', 1),
-           ('pct', '%', 1), ('pct2', '%%', 1), ('q', '?', 2), ('dollar', '$', 2), ('slash', '/', 2), ('lc', '//', 1), ('bc', '/*', 2), ('hex4', '4', 2), ('hexb', 'b', 2), ('hexF', 'F', 1), ('lt', '<', 1)]
+    # concrete construct openers followed by symbolic bytes: (name, concrete prefix, symbolic bytes, USED or None). The parser's branches on the
+    # concrete prefix fold. A symbolic byte that is examined inside a string / comment costs seconds; one examined in the default state keeps every
+    # construct branch alive (60-100 s, like dsparse_len1). After a # / % construct the cursor is concrete only when the conversion stub consumes a
+    # cell-fixed number of characters (USED), the converted value stays symbolic.
+    PFX = [('dq', '"', 1, None), ('sq', "'", 1, None), ('dq_bs', '"\\', 1, None), ('sq_bs', "'\\", 1, None), ('be_sq', "$'", 1, None), ('be_sq_bs', "$'\\", 1, None),
+           ('sq_bs_end', "'\\", 0, None), ('sq_a_bs_end', "'a\\", 0, None), ('dq_bs_end', '"\\', 0, None), ('dq_a', '"a', 1, None), ('sq_a', "'a", 1, None), ('q_dq', '?"', 1, None), ('lc', '//', 1, None), ('bc_a', '/*a', 1, None), ('hex_dq', '4"', 1, None),
+           ('hash', '#1', 0, 1), ('hash_u0', '#1', 0, 0), ('hash2', '##1', 0, 1), ('hash3', '###1', 0, 1), ('hash4', '####1', 0, 1), ('be_hash2', '$##1', 0, 1), ('q_hash', '?#1', 0, 1),
+           ('pct', '%1', 0, 1), ('pct2', '%%1', 0, 1), ('be_pct', '$%1', 0, 1), ('hexpair', '4b', 0, None), ('hex_q_hex', '4?b', 0, None), ('bc_star', '/*/4b', 0, None), ('lt', '<4b', 0, None)]
     if not quick:
-        PFX += [('hash', '#', 2), ('pct', '%', 2), ('sq_bs', "'\\", 2), ('dq_bs', '"\\', 2), ('bc_star', '/**', 1)]
-    for nm, pre, k in PFX:
+        # two symbolic bytes after the prefix (every construct branch alive for the second one: minutes); texts of length <= 3 are covered by dsparse_len3
+        PFX += [('sq_bs', "'\\", 2, None), ('dq_bs', '"\\', 2, None), ('be_sq', "$'", 2, None), ('bc', '/*', 2, None)]
+    for nm, pre, k, used in PFX:
         L = len(pre) + k
         d = {'LEN': L, 'NPRE': len(pre)}
         for j, ch in enumerate(pre):
             d['P%d' % j] = ord(ch)
-        qs.append(Q('dsparse_pfx_%s_s%d' % (nm, k), 'P', 'h_dsparse.c', d, 10 if L <= 2 else 14, unwindset=PLOOP % (L + 2), mem_gb=8, timeout=900,
-                    desc='parse_data_string on the concrete prefix %r followed by %d arbitrary symbolic bytes equals the reference parser; the text is an exact-size object (no read past the NUL)' % (pre, k),
+        if used is not None:
+            d['USED'] = used
+        qs.append(Q('dsparse_pfx_%s_s%d%s' % (nm, k, '' if used is None else '_u%d' % used), 'P', 'h_dsparse.c', d, max(10 if L <= 2 else 14, min(4 * L, 16) + 2), unwindset=PLOOP % (L + 2), mem_gb=3 if k <= 1 else 10, timeout=900, tv_runs=60 if (k or used is not None) else 4,
+                    desc='parse_data_string on the concrete prefix %r followed by %d arbitrary symbolic bytes equals the reference parser%s; the text is an exact-size heap object (no read past the NUL)' % (
+                        pre, k, '' if used is None else ' (numeric conversion stub consumes exactly %d characters, arbitrary value)' % used),
                     bounds='text == %r + %d symbolic bytes (all values), mask requested or not, flags == 0' % (pre, k)))
-    # round trip through the real parser: (LEN, has_mask, flags) cells in the quick tier (the text is then concrete for LEN 0), symbolic has_mask/flags thorough
-    if quick:
-        for L, hm, fl in [(0, 0, 0), (0, 1, 1)]:
-            qs.append(Q('dsround_len%d_m%d_f%d' % (L, hm, fl), 'P', 'h_dsround.c', {'LEN': L, 'HM': hm, 'FL': fl}, 5 * L + 8, unwindset=PRINTF_LOOPS + ',' + PLOOP % (5 * L + 4), mem_gb=6, timeout=900,
-                        desc='parse_data_string(format_data_string(d, mask, flags)) == (d, mask classes) for %d symbolic bytes, has_mask=%d flags=%d' % (L, hm, fl), bounds='len(data) == %d, has_mask %d, flags %d' % (L, hm, fl)))
-    for L in ([] if quick else [0, 1, 2]):
+    # round trip through the real parser
+    for L in ([0] if quick else [0, 1, 2]):
         qs.append(Q('dsround_len%d' % L, 'P', 'h_dsround.c', {'LEN': L}, 5 * L + 8, unwindset=PRINTF_LOOPS + ',' + PLOOP % (5 * L + 4), mem_gb=6 if L == 0 else 24, timeout=900 if L == 0 else 1800, desc='parse_data_string(format_data_string(d, mask, flags)) == (d, mask classes) for %d symbolic bytes' % L,
                     bounds='len(data) == %d, all byte values, all masks, with/without mask, both flag values' % L))
     # hex dump cells: (name, SIZE, START, FLAGS, WIDTH, [(C1, C2) ...])
     ALLCUTS3 = [(a, b) for a in range(0, 4) for b in range(a, 4)]
-    hd = [('s0', 0, 0x0, 0x2, 2, [(0, 0)]), ('s1_ascii', 1, 0x0, 0x2, 2, [(0, 0), (0, 1), (1, 1)])]
-    if quick:
-        hd += [('s2_al15', 2, 0x1F, 0x0, 2, [(0, 2), (1, 1)])]
-    else:
+    hd = [('s0', 0, 0x0, 0x2, 2, [(0, 0)]), ('s1_ascii', 1, 0x0, 0x2, 2, [(0, 0), (0, 1), (1, 1)]), ('s2_al15', 2, 0x1F, 0x0, 2, [(0, 2), (1, 1)])]
+    if not quick:
         # cost is ~20 s per dumped byte (one string_printf per byte): cells above ~20 bytes exceed the thorough budget (measured: 12 bytes 1075 s, 17 bytes > 1800 s)
         hd += [('s3_al14_ascii', 3, 0x1E, 0x2, 2, ALLCUTS3),
                ('s5_al13_skipsep_o64', 5, 0x123456789ABCDEFD, 0x842, 16, [(0, 0), (2, 4)]),
@@ -96,30 +114,37 @@ def queries(tier):
                ('s8_below_top', 8, 0xFFFFFFFFFFFFFFE4, 0x2, 16, [(3, 3)])]
     for nm, size, st, fl, w, cuts in hd:
         for c1, c2 in cuts:
-            qs.append(Q('hexdump_%s_c%d_%d' % (nm, c1, c2), 'XP', 'h_hexdump.c', {'SIZE': size, 'START': '0x%xULL' % st, 'FLAGS': fl, 'WIDTH': w, 'C1': c1, 'C2': c2}, max(21 if (w == 16 and not fl & 0x40) else 19, size + 3), unwindset=PRINTF_LOOPS, mem_gb=12, timeout=1800,
+            qs.append(Q('hexdump_%s_c%d_%d' % (nm, c1, c2), 'XP', 'h_hexdump.c', {'SIZE': size, 'START': '0x%xULL' % st, 'FLAGS': fl, 'WIDTH': w, 'C1': c1, 'C2': c2}, max(21 if (w == 16 and not fl & 0x40) else 19, size + 3), unwindset=PRINTF_LOOPS, mem_gb=5 if size <= 3 else 12, timeout=1800,
                         desc='format_data text of %d symbolic bytes at 0x%x, flags 0x%x, iovecs cut at %d/%d, decoded by an independent dump parser' % (size, st, fl, c1, c2),
                         bounds='size %d, start 0x%x, flags 0x%x, cuts (%d,%d), all byte values' % (size, st, fl, c1, c2)))
     # dumps whose last line ends at 2^64 (fixes/format_data-top-of-address-space.patch; VIOLATION on the unpatched tree)
     for nm, size, st, fl, cuts in (('top_s1_ends_at_2e64', 1, 0xFFFFFFFFFFFFFFFF, 0x0, (0, 1)), ('top_ends_at_2e64', 4, 0xFFFFFFFFFFFFFFFC, 0x2, (0, 4)), ('top_unaligned_to_2e64', 5, 0xFFFFFFFFFFFFFFFB, 0x2, (2, 2)), ('top_last_line', 3, 0xFFFFFFFFFFFFFFF4, 0x2, (1, 2))):
         if quick and nm != 'top_s1_ends_at_2e64':
             continue
-        qs.append(Q('hexdump_' + nm, 'XP', 'h_hexdump.c', {'SIZE': size, 'START': '0x%xULL' % st, 'FLAGS': fl, 'WIDTH': 16, 'C1': cuts[0], 'C2': cuts[1]}, max(21, size + 3), unwindset=PRINTF_LOOPS, mem_gb=12, timeout=1800,
+        qs.append(Q('hexdump_' + nm, 'XP', 'h_hexdump.c', {'SIZE': size, 'START': '0x%xULL' % st, 'FLAGS': fl, 'WIDTH': 16, 'C1': cuts[0], 'C2': cuts[1]}, max(21, size + 3), unwindset=PRINTF_LOOPS, mem_gb=5 if size <= 3 else 12, timeout=1800,
                     desc='format_data text of %d symbolic bytes whose last line ends at 2^64' % size, bounds='size %d, start 0x%x, flags 0x%x, all byte values' % (size, st, fl)))
-    # diff / colour mode: (name, SIZE, START, FLAGS, WIDTH, (C1, C2), PC or None = no previous buffer); data and prev bytes symbolic
-    df = [('s1_al0', 1, 0x40, 0x3, 2, (0, 1), 0), ('s1_al3', 1, 0x43, 0x3, 2, (1, 1), 1), ('s1_al15', 1, 0x4F, 0x3, 2, (0, 0), 0),
-          ('s2_al15', 2, 0x1F, 0x1, 2, (1, 2), 2), ('s3_al3', 3, 0x103, 0x1, 4, (1, 2), 2),
-          ('s1_color_noprev', 1, 0x5, 0x3, 2, (0, 1), None), ('s1_prev_nocolor', 1, 0x5, 0x2, 2, (0, 1), 1)]
+    # diff / colour mode: (name, SIZE, START, FLAGS, WIDTH, (C1, C2), PC or None = no previous buffer, EV); data and prev bytes symbolic.
+    # EV = 1: escape sequences captured out of band by the wrapper's sink (text positions concrete: ~20-60 s per cell); EV = 0: sequences inline in
+    # the text and removed by the harness (positions symbolic: 90-280 s for 1..3 bytes), thorough tier only.
+    df = [('s1_al0', 1, 0x40, 0x3, 2, (0, 1), 0, 1), ('s1_al3', 1, 0x43, 0x3, 2, (1, 1), 1, 1), ('s1_al15', 1, 0x4F, 0x3, 2, (0, 0), 0, 1),
+          ('s2_al15', 2, 0x1F, 0x1, 2, (1, 2), 2, 1), ('s3_al3', 3, 0x103, 0x1, 4, (1, 2), 2, 1),
+          ('s1_color_noprev', 1, 0x5, 0x3, 2, (0, 1), None, 1), ('s1_prev_nocolor', 1, 0x5, 0x2, 2, (0, 1), 1, 0)]
     if not quick:
-        df += [('s2_al0', 2, 0x0, 0x3, 2, (1, 1), 1), ('s2_al3', 2, 0x3, 0x3, 2, (0, 2), 0), ('s2_al15_ascii', 2, 0xFF, 0x3, 4, (0, 1), 1),
-               ('s3_al0', 3, 0x10, 0x3, 2, (0, 3), 1), ('s3_al3_ascii', 3, 0x3, 0x3, 2, (1, 1), 3), ('s3_al15', 3, 0xFFFFFFFF, 0x3, 16, (1, 2), 2),
-               ('s4_al14_skipsep', 4, 0x2E, 0x43, 2, (2, 3), 1), ('s2_color_noprev', 2, 0xF, 0x3, 2, (1, 1), None), ('s3_prev_nocolor', 3, 0xE, 0x2, 2, (1, 2), 2)]
-    for nm, size, st, fl, w, (c1, c2), pc in df:
+        df += [('s2_al0', 2, 0x0, 0x3, 2, (1, 1), 1, 1), ('s2_al3', 2, 0x3, 0x3, 2, (0, 2), 0, 1), ('s2_al15_ascii', 2, 0xFF, 0x3, 4, (0, 1), 1, 1),
+               ('s3_al0', 3, 0x10, 0x3, 2, (0, 3), 1, 1), ('s3_al3_ascii', 3, 0x3, 0x3, 2, (1, 1), 3, 1), ('s3_al15', 3, 0xFFFFFFFF, 0x3, 16, (1, 2), 2, 1),
+               ('s4_al14_skipsep', 4, 0x2E, 0x43, 2, (2, 3), 1, 1), ('s2_color_noprev', 2, 0xF, 0x3, 2, (1, 1), None, 1), ('s3_prev_nocolor', 3, 0xE, 0x2, 2, (1, 2), 2, 0),
+               ('inline_s1_al0', 1, 0x40, 0x3, 2, (0, 1), 0, 0), ('inline_s1_al3', 1, 0x43, 0x3, 2, (1, 1), 1, 0), ('inline_s1_al15', 1, 0x4F, 0x3, 2, (0, 0), 0, 0),
+               ('inline_s1_color_noprev', 1, 0x5, 0x3, 2, (0, 1), None, 0)]
+    for nm, size, st, fl, w, (c1, c2), pc, ev in df:
         d = {'SIZE': size, 'START': '0x%xULL' % st, 'FLAGS': fl, 'WIDTH': w, 'C1': c1, 'C2': c2}
         if pc is not None:
             d.update(DIFF=1, PC=pc)
-        cap = hd_cap(size, st, fl, w)
-        qs.append(Q('hexdiff_' + nm, 'XP', 'h_hexdump.c', d, max(21 if w == 16 else 19, size + 3), unwindset=PRINTF_LOOPS + ',strip_escapes.0:%d' % (cap + 1), mem_gb=12, timeout=1800,
-                    desc='format_data of %d symbolic bytes at 0x%x, flags 0x%x, %s: escape sequences decoded, highlighted fields == bytes differing from prev at the same offset, text without escapes == ordinary dump' % (
-                        size, st, fl, 'previous buffer of symbolic bytes (iovecs cut at %d)' % pc if pc is not None else 'no previous buffer'),
+        if ev:
+            d.update(EV=1)
+        cap = hd_cap(size, st, fl if not ev else fl & ~1, w)
+        us = PRINTF_LOOPS + (',strip_escapes.2:%d' % (cap + 1) if (fl & 1 and not ev) else '') + (',apply_events.1:%d' % (cap + 1) if ev else '')
+        qs.append(Q('hexdiff_' + nm, 'XP', 'h_hexdump.c', d, max(21 if w == 16 else 19, size + 3, 6 * size + 2 if ev else 0), unwindset=us, mem_gb=6 if ev or not fl & 1 else 12, timeout=1800,
+                    desc='format_data of %d symbolic bytes at 0x%x, flags 0x%x, %s: escape sequences (%s) decoded, highlighted fields == bytes differing from prev at the same offset, text without escapes == ordinary dump' % (
+                        size, st, fl, 'previous buffer of symbolic bytes (iovecs cut at %d)' % pc if pc is not None else 'no previous buffer', 'captured out of band per write_data call' if ev else 'inline'),
                     bounds='size %d, start 0x%x, flags 0x%x, cuts (%d,%d)/%s, all data and prev byte values' % (size, st, fl, c1, c2, pc)))
     return qs
